@@ -49,6 +49,7 @@ type Opts struct {
 	DisableTags  bool            // statsdaemon
 	ResourceKeys []string        // otlp
 	MaxRetries   int             // otlp (default 3; -1 = 0)
+	TagPrefix    string          // newrelic
 }
 
 // Request is one captured HTTP request.
@@ -300,6 +301,9 @@ func New(kind string, o Opts) (*Built, error) {
 		v.Set("newrelic.max-request-elapsed-time", elapsed)
 		if o.BatchSize > 0 {
 			v.Set("newrelic.metrics-per-batch", o.BatchSize)
+		}
+		if o.TagPrefix != "" {
+			v.Set("newrelic.tag-prefix", o.TagPrefix)
 		}
 		b, err = newrelic.NewClientFromViper(v, logger, pool)
 	case base == "otlp":
